@@ -31,7 +31,7 @@ ASSUMPTIONS = [
 ]
 BUDGET = {"quick": 70, "thorough": 700}
 FLOORS = {"crash_points": {"quick": 3000, "thorough": 100000}, "directory_states_checked": {"quick": 3000, "thorough": 100000},
-          "depth2_states": {"quick": 1500, "thorough": 50000}, "real_kills": {"quick": 20, "thorough": 150}, "driver_saves": 8, "interrupt_points": 100}
+          "depth2_states": {"quick": 1500, "thorough": 50000}, "real_kills": {"quick": 20, "thorough": 150}, "driver_saves": 8, "interrupt_points": 100, "driver_runs_stopped_by_sigint": 3}
 
 NAME = "/ckpt/checkpoint.json"
 
@@ -64,13 +64,13 @@ def cases(tier, seed):
     pos = [("abs", 0), ("abs", 1), ("abs", 2)] + [("end", j) for j in range(0, 6)]
     pos += [("frac", float(f)) for f in rng.uniform(0.02, 0.98, 6 if tier == "quick" else 120)]
     for p in pos:
-        for start in ("clean", "between-renames"):
+        for start in ("clean", "between-renames", "symlink"):  # symlink: the checkpoint name is a link to a file elsewhere (scratch space)
             out.append({"engine": "sigkill", "pos": list(p), "start": start})
     # death through an exception at every operation (the interpreter unwinds: files are closed, finally clauses run)
     for start in ("clean", "between-renames"):
         for bufsize in (1, 64):
             out.append({"engine": "interrupt", "start": start, "bufsize": bufsize, "npar": 2})
-    for alg in ("mcmc", "optimizer", "optimizer-lbfgs", "hmc-class"):  # Optimizer has two code paths (_run, _run_closure for LBFGS); HMC is the standalone sampler class
+    for alg in ("mcmc", "optimizer", "optimizer-lbfgs", "hmc-class", "mcmc+sigint", "optimizer+sigint", "optimizer-lbfgs+sigint"):  # +sigint: the user stops the run with Ctrl-C after two saves; whatever is written on the way out is a checkpoint write too  # Optimizer has two code paths (_run, _run_closure for LBFGS); HMC is the standalone sampler class
         out.append({"engine": "driver", "algorithm": alg, "bufsize": 64})
     return out
 
@@ -270,7 +270,11 @@ class F:
     def write(self, s): point(); return self.f.write(s)
     def __enter__(self): return self
     def __exit__(self, *a): point(); self.f.close(); return False
+    def fileno(self): raise AttributeError("no descriptor: copies go through write()")
+    def __getattr__(self, n): return getattr(self.f, n)
 def my_open(p, mode='r', *a, **kw): point(); return F(real_open(p, mode, *a, **kw))
+import builtins
+builtins.open = my_open  # whatever the write uses to produce files (shutil, ...) goes through the same points
 class OS:
     path = os.path
     def rename(self, a, b): point(); return real_os.rename(a, b)
@@ -295,13 +299,27 @@ def run_sigkill(case, V, C, seen):
         if case["start"] == "clean":
             open(name, "w").write(good)
             G = 1
+        elif case["start"] == "symlink":
+            os.mkdir(os.path.join(d, "scratch"))
+            open(os.path.join(d, "scratch", "target.json"), "w").write(good)
+            os.symlink(os.path.join("scratch", "target.json"), name)
+            G = 1
+            C["symlinked_checkpoint_kills"] = C.get("symlinked_checkpoint_kills", 0) + 1
         else:
             # the state a crash between the two renames leaves behind: {name.old: v1, name.new: v2}
             open(name + ".old", "w").write(good)
             open(name + ".new", "w").write(v2)
             G = 2
         code = CHILD % {"path": [p for p in sys.path if p]}
-        # total number of points of this write
+        # total number of points of this write (probed on a name in the same kind of starting state)
+        if case["start"] == "symlink":
+            open(os.path.join(d, "scratch", "probe-target.json"), "w").write(good)
+            os.symlink(os.path.join("scratch", "probe-target.json"), os.path.join(d, "probe.json"))
+        elif case["start"] == "clean":
+            open(os.path.join(d, "probe.json"), "w").write(good)
+        else:
+            open(os.path.join(d, "probe.json.old"), "w").write(good)
+            open(os.path.join(d, "probe.json.new"), "w").write(v2)
         probe = subprocess.run([sys.executable, "-c", code, "-1", os.path.join(d, "probe.json"), "3"], capture_output=True, text=True, timeout=120)
         total = int(probe.stdout.split("OPS")[1]) if "OPS" in probe.stdout else None
         if total is None:
@@ -311,6 +329,8 @@ def run_sigkill(case, V, C, seen):
                 os.remove(os.path.join(d, "probe.json") + suffix)
             except OSError:
                 pass
+        if case["start"] == "symlink" and os.path.exists(os.path.join(d, "scratch", "probe-target.json")):
+            os.remove(os.path.join(d, "scratch", "probe-target.json"))
         # map the coarse index k (0..8) onto the child's own operation count: both ends and evenly spaced interior points
         kind, val = case["pos"]
         kk = int(val) if kind == "abs" else (total - int(val) if kind == "end" else int(round(val * total)))
@@ -322,11 +342,11 @@ def run_sigkill(case, V, C, seen):
         for suffix in ("", ".old", ".new"):
             p = name + suffix
             if os.path.lexists(p):
-                files[NAME + suffix] = open(p, "rb").read()
-        before = {NAME: good.encode()} if case["start"] == "clean" else {NAME + ".old": good.encode(), NAME + ".new": v2.encode()}
+                files[NAME + suffix] = open(p, "rb").read() if os.path.exists(p) else b""
+        before = {NAME: good.encode()} if case["start"] in ("clean", "symlink") else {NAME + ".old": good.encode(), NAME + ".new": v2.encode()}
         if r.returncode not in (0, -9):
             raise RuntimeError("child failed: rc=%s %s" % (r.returncode, r.stderr[-400:]))
-        judge(V, C, seen, before, files, ({1} if case["start"] == "clean" else {1, 2}) | {3}, 1, 1 if case["start"] == "clean" else 2, "real SIGKILL before operation %d/%d (start %s)" % (kk, total, case["start"]))
+        judge(V, C, seen, before, files, ({1} if case["start"] in ("clean", "symlink") else {1, 2}) | {3}, 1, 1 if case["start"] in ("clean", "symlink") else 2, "real SIGKILL before operation %d/%d (start %s)" % (kk, total, case["start"]))
     finally:
         import shutil
 
@@ -338,6 +358,8 @@ def run_driver(case, V, C, seen):
     import torch
 
     alg = case["algorithm"]
+    sigint = alg.endswith("+sigint")
+    alg = alg.split("+")[0]
     joint = {"id": "joint", "type": "JointDistributionModel", "distributions": [
         {"id": "prior", "type": "Distribution", "distribution": "torch.distributions.Normal",
          "x": {"id": "x", "type": "Parameter", "tensor": [0.3, -0.2], "dtype": "torch.float64"}, "parameters": {"loc": 0.0, "scale": 1.0}}]}
@@ -353,12 +375,48 @@ def run_driver(case, V, C, seen):
         spec[1].pop("convergence")
         if alg == "optimizer-lbfgs":
             spec[1].update(algorithm="torch.optim.LBFGS", options={"lr": 0.1, "max_iter": 2})
-    # pass 1: record how many operations each save performs
-    vfs = fsshim.VFS({}, case["bufsize"])
-    with fsshim.installed(vfs):
+    import signal
+
+    def arm(vfs_):
+        """deliver SIGINT to this process when the second save has finished (just before the third one would start)"""
+        if not sigint:
+            return
+        real_op = vfs_._op
+
+        def _op(name, *a):
+            out = real_op(name, *a)
+            if len(vfs_.ops) == sigint_after and not getattr(vfs_, "_sigint_sent", False):
+                vfs_._sigint_sent = True
+                signal.raise_signal(signal.SIGINT)
+            return out
+
+        vfs_._op = _op
+
+    def run_it():
         objs, dic = tt.load(spec)
         dic["x"].requires_grad = alg not in ("mcmc", "hmc-class")
-        dic["mcmc"].run()
+        try:
+            dic["mcmc"].run()
+        finally:
+            signal.signal(signal.SIGINT, signal.default_int_handler)
+
+    sigint_after = None
+    if sigint:
+        vfs0 = fsshim.VFS({}, case["bufsize"])
+        with fsshim.installed(vfs0):
+            sigint, keep = False, True
+            run_it()
+            sigint = keep
+        c0 = [i for i, o in enumerate(vfs0.ops) if o[0] == "create"]
+        if len(c0) < 3:
+            return
+        sigint_after = c0[2]  # number of operations of the first two saves
+        C["driver_runs_stopped_by_sigint"] = C.get("driver_runs_stopped_by_sigint", 0) + 1
+    # pass 1: record how many operations each save performs
+    vfs = fsshim.VFS({}, case["bufsize"])
+    arm(vfs)
+    with fsshim.installed(vfs):
+        run_it()
     total = len(vfs.ops)
     creates = [i for i, o in enumerate(vfs.ops) if o[0] == "create"]
     C["driver_saves"] += len(creates)
@@ -373,12 +431,11 @@ def run_driver(case, V, C, seen):
         if start:
             C["driver_kills_over_an_earlier_checkpoint"] = C.get("driver_kills_over_an_earlier_checkpoint", 0) + 1
         vfs2 = fsshim.VFS(dict(start), case["bufsize"], crash_at=k)
+        arm(vfs2)
         torch.manual_seed(0)
         with fsshim.installed(vfs2):
             try:
-                objs, dic = tt.load(spec)
-                dic["x"].requires_grad = alg not in ("mcmc", "hmc-class")
-                dic["mcmc"].run()
+                run_it()
             except fsshim.Crash:
                 pass
         C["crash_points"] += 1
